@@ -475,6 +475,10 @@ def check_repeat(model: Model, rep: Report, rule: str):
         ext_node = exts_nodes(lp.node, f.self_name)
         fresh_of_snapshot = bool(ext_node) and all(
             _fresh_copy_expr(_call_first_arg(n), lp.node, set(snap_names)) for n in ext_node)
+        if not fresh_of_snapshot and lp.extra.get("mapped_elt") is not None and arg == lp.extra["mapped_elt"] and is_call_of(arg, "copy") \
+                and arg[1][1] in snapshot_terms and not (list(arg[2]) + list(arg[3])):
+            # ``for rep in map(lambda _: snapshot.copy(), range(n))``: the element expression is evaluated once per iteration
+            fresh_of_snapshot = True
         what = "each iteration must extend with a fresh copy of the snapshot taken before the loop"
         if arg == ("call", ("attr", self_t, "copy"), (), ()) and not (is_call_of(arg, "copy") and arg[1][1] != self_t):
             what = "copies the growing block itself inside the loop: the content grows geometrically"
